@@ -455,6 +455,8 @@ def gen_mt(rng, count, tag):
         comb = rng.choice(["join", "join", "race", "merge", "merge", "zip", "chain", "fgroup", "sgroup"])
         cont = "vec" if comb in ("fgroup", "sgroup") else rng.choice(["vec", "array", "tuple"])
         n = rng.randint(1, 8) if cont == "vec" else rng.randint(1, 5)
+        if cont == "vec" and rng.random() < 0.04:
+            n = rng.choice([23, 64, 65, 66, 130])        # beyond the inline capacities of the waker / readiness containers
         scs = []
         for i in range(n):
             if comb in ("join", "race", "fgroup"):
